@@ -313,6 +313,12 @@ func (g *G) Value(t reflect.Type, p P, depth int) reflect.Value {
 				g.DirtyBits++
 			}
 		}
+		if n > 0 && rapid.IntRange(0, 9).Draw(g.T, "bs_extra") == 0 {
+			// more octets in Bytes than BitLength needs (a caller that cuts the string out of a longer buffer by its bit
+			// length only): the octets behind the last significant one are not part of the value either
+			b = append(b, rapid.SliceOfN(rapid.Byte(), 1, 3).Draw(g.T, "bs_extra_octets")...)
+			g.DirtyBits++
+		}
 		v := reflect.New(t).Elem()
 		v.Field(0).SetBytes(b)
 		v.Field(1).SetUint(uint64(n))
